@@ -38,6 +38,10 @@ func init() {
 					for _, t1 := range []int64{0, 2, 4, 6, 7, 8, 9} {
 						for t2 := int64(0); t2 < 15; t2++ {
 							cs = append(cs, mkCase("", "c01", "HStep2", cfg, kind, 1, t1, t2))
+							if kind == 0 {
+								// the seed tree with symbolic links (MemFS only)
+								cs = append(cs, mkCase("", "c01", "HStep2", cfg, kind, 3, t1, t2))
+							}
 						}
 					}
 				}
@@ -50,7 +54,7 @@ func init() {
 			b := map[string]any{"history_length": 1, "seed_trees": "S0..S4", "universe_paths": 9, "flag_bits": "O_ACCMODE|O_CREATE|O_EXCL|O_TRUNC|O_APPEND (access mode 3 excluded)", "perm_bits": "0o777 for creation, 0o7777 for Chmod", "uid_gid": "-1..70000", "truncate_size": "-2..4", "unclean_symbolic_bytes": 3,
 				"relative_operands": "after Chdir to /w or /w/a: 9 relative spellings (plain, ../x, ., .., empty, ./x, x/../y), one relative operand per call", "outside": "longer histories, deeper trees, flag bits outside the mask, O_SYNC, non-administrator users (C03)"}
 			if tier == "thorough" {
-				b["history_length"] = "1, and 2 from seed S1 with a successful first step in {Mkdir 0750, OpenFile O_WRONLY|O_CREATE|O_TRUNC 0640 writing one byte, Remove, Rename, Link, Symlink, Truncate to 1} over all universe operands (a failing first step leaves the tree unchanged, asserted, and is therefore covered by length 1)"
+				b["history_length"] = "1, and 2 from seed S1 (MemFS also S3, the tree with symbolic links) with a successful first step in {Mkdir 0750, OpenFile O_WRONLY|O_CREATE|O_TRUNC 0640 writing one byte, Remove, Rename, Link, Symlink, Truncate to 1} over all universe operands (a failing first step leaves the tree unchanged, asserted, and is therefore covered by length 1)"
 				b["unclean_symbolic_bytes"] = 5
 			}
 			return b
